@@ -12,7 +12,7 @@ LEVEL = "exploration"
 GAPS = ("exploitability", "l1_norm", "l2_norm", "linf_norm")
 RULE = ("(a) Exhaustive lattice: for a drawn game (superadditive for the SA computers, SAM for sam_apx_r) bounds are computed "
         "for EVERY knowledge set of n=3 (8) / n=4 (1024) and compared along EVERY edge K -> K+{S} (12 / 5120 edges). "
-        "(b) Hypothesis-sampled reveal paths from a drawn K0 to full knowledge for n=5..7. (c) reveal paths driven through ICG_Gym over 2-3 episodes with reset() between them and a cyclic list of hidden games (n=3..5). Oracles per edge: lower never "
+        "(b) Hypothesis-sampled reveal paths from a drawn K0 to full knowledge for n=5..7, short seeded walks (6 reveals) at n=9 (8..10 thorough). (c) reveal paths driven through ICG_Gym over 2-3 episodes with reset() between them and a cyclic list of hidden games (n=3..5). Oracles per edge: lower never "
         "decreases, upper never increases, each registered gap function (taken from the GAP_FUNCTIONS registry) non-increasing, "
         ">= 0, == 0 at full knowledge, and equal to an independent gap oracle evaluated on the same bounds. Non-trivial: a "
         "case containing an edge on which some OTHER coalition's interval strictly shrinks (propagation); distinct = hash of "
